@@ -40,7 +40,7 @@ func findT(bits int, order uint64, exact bool, pos int) uint64 {
 
 func bgvCases(tier string, seed int64) []eng.Case {
 	r := eng.NewRand("c07-bgv-cases", seed)
-	logNs := []int{4, 5, 6, 7, 8}
+	logNs := []int{4, 5, 6, 7, 8, 9}
 	if tier == "thorough" {
 		logNs = []int{4, 5, 6, 7, 8, 9, 10, 11}
 	}
@@ -70,12 +70,15 @@ func bgvCases(tier string, seed int64) []eng.Case {
 			minBits := ref.BitLen(order)
 			all := []int{minBits, minBits + 1, 17, 20, 30, 45, 58}
 			var tbs []int
-			if tier == "thorough" {
+			if tier == "thorough" || logN <= 6 {
 				tbs = all
 			} else {
 				tbs = []int{all[r.N(2)], eng.Pick(r, 17, 20, 30), eng.Pick(r, 45, 58)}
 			}
-			for _, tb := range tbs {
+			if tier == "thorough" {
+				tbs = append(tbs, tbs...) // a second chain for every plaintext modulus size
+			}
+			for ti, tb := range tbs {
 				if tb < minBits {
 					continue
 				}
@@ -121,7 +124,7 @@ func bgvCases(tier string, seed int64) []eng.Case {
 					continue
 				}
 				cfg := bgvCfg{LogN: logN, GapLog: g, T: t, TBits: tb, Q: q, P: p}
-				id := fmt.Sprintf("bgv/logN%d/gap%d/t%d/q%v/p%v", logN, g, t, qbits, pbits)
+				id := fmt.Sprintf("bgv/logN%d/gap%d/t%d/q%v/p%v/v%d", logN, g, t, qbits, pbits, ti/len(all))
 				if seen[id] {
 					continue
 				}
@@ -162,13 +165,13 @@ var patNames = []string{"uniform<t", "uniform64", "boundary", "all-top", "all-ma
 func (e *bgvEnv) boundaryU() []uint64 {
 	t := e.t
 	k := (^uint64(0)) / t // largest multiple of t below 2^64
-	return []uint64{0, 1, t - 1, t, t + 1, 1 << 63, ^uint64(0), 1<<63 - 1, 1<<63 + 1, (t - 1) / 2, (t + 1) / 2, k * t, k*t - 1, k*t + 1, 2*t - 1, 2 * t, 1<<62 + 1, ^uint64(0) - 1, t - 2, 2}
+	return []uint64{0, 1, t - 1, t, t + 1, 1 << 63, ^uint64(0), 1<<63 - 1, 1<<63 + 1, (t - 1) / 2, (t + 1) / 2, k * t, k*t - 1, k*t + 1, 2*t - 1, 2 * t, 1<<62 + 1, ^uint64(0) - 1, t - 2, 2, (t + 3) / 2, (t - 3) / 2, t + (t+3)/2}
 }
 
 func (e *bgvEnv) boundaryI() []int64 {
 	t := int64(e.t)
 	k := math.MaxInt64 / t
-	return []int64{0, 1, -1, math.MinInt64, math.MaxInt64, math.MinInt64 + 1, (t - 1) / 2, -(t - 1) / 2, (t + 1) / 2, -(t + 1) / 2, t - 1, -(t - 1), t, -t, t + 1, -(t + 1), k * t, -k * t, -k*t - 1, k*t + 1, 2, -2, -(t - 1)/2 - 1, 1 << 62, -(1 << 62)}
+	return []int64{0, 1, -1, math.MinInt64, math.MaxInt64, math.MinInt64 + 1, (t - 1) / 2, -(t - 1) / 2, (t + 1) / 2, -(t + 1) / 2, t - 1, -(t - 1), t, -t, t + 1, -(t + 1), k * t, -k * t, -k*t - 1, k*t + 1, 2, -2, -(t-1)/2 - 1, 1 << 62, -(1 << 62), (t + 3) / 2, -(t + 3) / 2, (t - 3) / 2, -(t - 3) / 2}
 }
 
 func (e *bgvEnv) valsU(pat, length int) []uint64 {
